@@ -227,7 +227,18 @@ func Corner() *Desc {
 	d.add(&Node{Kind: "func", Defaults: []Val{Ref(3)}, Captures: []int{4}})
 	d.add(&Node{Kind: "bound", Recv: 0, Method: "setdefault"})
 	d.add(&Node{Kind: "bound", Recv: 1, Method: "add"})
+	// struct sums with exactly one operand frozen beforehand, in both orders
+	h := d.add(&Node{Kind: "struct", Host: true, PreFrozen: true, Init: []Val{Atom(1011), Atom(5)}})
+	l1 := d.add(&Node{Kind: "list", Init: []Val{Atom(1)}})
+	s1 := d.add(&Node{Kind: "struct", Init: []Val{Atom(1013), Ref(l1)}})
+	d.add(&Node{Kind: "ssum", A: s1, B: h})
+	l2 := d.add(&Node{Kind: "dict", Init: []Val{Atom(1), Atom(2)}})
+	s2 := d.add(&Node{Kind: "struct", Init: []Val{Atom(1016), Ref(l2)}})
+	d.add(&Node{Kind: "ssum", A: h, B: s2})
 	for i := range d.Nodes {
+		if i == l1 || i == s1 || i == l2 || i == s2 {
+			continue // reachable from the globals only through the sums
+		}
 		d.Globals = append(d.Globals, i)
 	}
 	return d
